@@ -182,4 +182,49 @@ def txnRW (s : State) (idx : Nat) (ops : List TxnOp) : State × List TxnRes × L
   let (s', rs, es) := txnLoop idx ops 0 s [] []
   if es.isEmpty then (s', rs, []) else (s, [], es)
 
+/-! ### read-only transactions (`TxnRO`) -/
+
+/-- the verbs the HTTP layer routes to the read-only endpoint (`agent/txn_endpoint.go`: everything
+    that is not counted as a write) -/
+def TxnOp.isRead : TxnOp → Bool
+  | .kv .get _ | .kv .getOrEmpty _ | .kv .getTree _ | .kv .checkSession _ | .kv .checkIndex _
+  | .kv .checkNotExists _ => true
+  | .node .get _ | .service .get _ | .check .get _ => true
+  | _ => false
+
+def TxnOp.isDeleteTree : TxnOp → Bool
+  | .kv .deleteTree _ => true
+  | _ => false
+
+/-- `ensureServiceTxn` records the service NAME (kind-service-names, not modelled as a table: a row
+    exists exactly while some instance of that name does) before it looks for the node, so in a read
+    transaction a first instance of a name is refused as a write even when the node is missing -/
+def roEarlyWrite (s : State) : TxnOp → Bool
+  | .service .set x => !s.svcs.any (fun w => lc w.name == lc x.name)
+  | .service .cas x => !casRefused x.modify ((svcFind s x.node x.id).map (·.modify)) &&
+      !s.svcs.any (fun w => lc w.name == lc x.name)
+  | _ => false
+
+/-- One operation inside `TxnRO`: the dispatcher runs on a memdb READ transaction with index 0.
+    Reads behave as in `TxnRW`; the first memdb write (`Insert` / `Delete` / `DeletePrefix`) fails
+    with "… in read-only transaction". A verb that turns out to write nothing (delete of an absent
+    key, an identical set, …) succeeds; `DeletePrefix` refuses before it looks at the table. -/
+def txnStepRO (s : State) (op : TxnOp) : Except Err (List TxnRes) :=
+  if roEarlyWrite s op then .error .readOnly else
+  match txnStep s 0 op with
+  | .error e => .error e
+  | .ok (s', rs) => if s' = s ∧ !op.isDeleteTree then .ok rs else .error .readOnly
+
+def txnLoopRO (s : State) : List TxnOp → Nat → List TxnRes → List (Nat × Err) → List TxnRes × List (Nat × Err)
+  | [], _, rs, es => (rs, es)
+  | op :: ops, i, rs, es =>
+    match txnStepRO s op with
+    | .ok r => txnLoopRO s ops (i + 1) (rs ++ r) es
+    | .error e => txnLoopRO s ops (i + 1) rs (es ++ [(i, e)])
+
+/-- `TxnRO`: results, or the errors; there is no state to return -/
+def txnRO (s : State) (ops : List TxnOp) : List TxnRes × List (Nat × Err) :=
+  let (rs, es) := txnLoopRO s ops 0 [] []
+  if es.isEmpty then (rs, []) else ([], es)
+
 end CV.Store
